@@ -41,6 +41,10 @@ type keyProvider struct {
 }
 
 func (p *keyProvider) provideKey(token *jwt.Token) (interface{}, error) {
+	// pin the token's algorithm to the one declared for the key
+	if p.key.Algorithm != "" && token.Method.Alg() != p.key.Algorithm {
+		return nil, fmt.Errorf("unexpected signing method: %s", token.Method.Alg())
+	}
 	return p.key.Key, nil
 }
 
